@@ -14,6 +14,10 @@ import (
 
 const maxLinkDepth int = 100
 
+// ServerlessAddress is the "remote address" of the user of a serverless
+// session (the server handler runs inside the client process).
+const ServerlessAddress string = "local(serverless)"
+
 // User represents an end-user which connected to the server via the DTail client.
 type User struct {
 	// The user name.
@@ -35,6 +39,12 @@ func New(name, remoteAddress string) (*User, error) {
 		remoteAddress: remoteAddress,
 		permissions:   permissions,
 	}, nil
+}
+
+// Serverless is true if this is the user of a serverless session, i.e. the
+// session does not come from a remote peer.
+func (u *User) Serverless() bool {
+	return u.remoteAddress == ServerlessAddress
 }
 
 // String representation of the user.
